@@ -88,6 +88,19 @@ CHECKS = {
 }
 BUILT = set(CHECKS)
 
+# workload extensions made after the seeding rounds (appended to the level text)
+EXTRA = {
+ "C01": " A pool-history shard logs each judged record right after a record of 100 B..1 MiB went through the handlers' shared buffer pool (Nano/Text/JSON).",
+ "C13": " A pool-history shard logs each judged record right after a record of 100 B..1 MiB went through the handlers' shared buffer pool (Nano/Text/JSON).",
+ "C03": " The With-vs-call-site comparison is strict (empty groups included) and also covers raw argument lists: every list of up to 4 arguments over strings, stray values, Attrs, (empty, nested, inline) groups and LogValuers, With(args...).Log(m,z) byte-equal to Log(m,args...,z) on all three handlers, at the root and under a WithGroup.",
+ "C06": " Context shards hand the lane a context type of the harness' own or a standard context with 40-1000 sibling children.",
+ "C07": " Context shards hand the lane a context type of the harness' own (own Done channel) or a standard context with 40-1000 sibling children; pushes are made by the cancelling goroutine the instant cancel() returned and by observer goroutines woken by <-ctx.Done() (these begin after Done is closed whatever cancel() is still doing).",
+ "C09": " History cases: structs pre-filled with garbage of every type before NewFlagSet, and reload (NewFlagSet+Parse twice on one struct value with different sources); the reference model never sees the prior content.",
+ "C11": " FirstIP/LastIP of the same package are called between the operations, and a twin filter instance receives the history shifted into another address space in 1/8 (exhaustive) / 1/3 (random) of the sequences, each instance probed with both spaces against its own model.",
+ "C12": " In every second trial and every fourth switch round witness filter instances (one long-lived in map mode, fresh ones crossing their own switch again and again) work in the same process and must answer by their own history only.",
+ "C20": " Slow-daemon cases: the handler waits before Done() at a gate only the supervisor opens; the gate stays closed 8 s (quick) / 8, 20, 45 s (thorough) and a Launch that has returned while it is closed is the violation.",
+}
+
 ALL = ["C%02d" % i for i in range(1, 21)]
 
 def main():
@@ -95,6 +108,7 @@ def main():
     for pid in ALL:
         if pid not in CHECKS: continue
         mon, cat, tech, text, note, ref = CHECKS[pid]
+        text += EXTRA.get(pid, "")
         checks.append({
             "property_id": pid,
             "quick_cmd": "./check %s quick" % pid,
